@@ -12,7 +12,7 @@ import zlib
 import numpy as np
 import pandas as pd
 
-GEN_VERSION = 4
+GEN_VERSION = 5
 
 STATES = ["AA", "BB", "CC", "DD"]
 CLASSES = ["urban", "suburban", "rural", "exurb"]
@@ -63,6 +63,8 @@ def make_election(rng, o=None):
     n_zero = o.get("n_zero_baseline", int(rng.choice([0, 0, 1, 2, 3])))
     cov = o.get("cov", choice(rng, ["normal", "uniform", "heavy"]))
     geo_county = o.get("geo_county", False) and not district
+    if geo_county:  # units are whole counties: one unit per county, so take many counties
+        cps = max(cps, n_units_target // n_states)
 
     rows = []
     per_county = max(1, int(round(n_units_target / (n_states * cps))))
@@ -138,6 +140,16 @@ def make_election(rng, o=None):
                     )
                 )
     df = pd.DataFrame(rows)
+    if o.get("tiny_county", bool(rng.random() < 0.15)) and not equal_baseline and len(df) > 12:
+        # a county of hamlets: one to three baseline voters per unit (predicted turnout of a group can be below 1)
+        cty = df.county_fips.iloc[int(rng.integers(0, len(df)))]
+        for j in df.index[df.county_fips == cty]:
+            bt = int(rng.integers(1, 4))
+            bd = int(rng.integers(0, bt + 1))
+            tt = int(rng.integers(0, 4))
+            td = int(rng.integers(0, tt + 1))
+            df.loc[j, ["baseline_turnout", "baseline_dem", "baseline_gop", "t_turnout", "t_dem", "t_gop"]] = [
+                bt, bd, bt - bd, tt, td, tt - td]
     if n_zero and len(df) > 10:
         idx = rng.choice(len(df), size=min(n_zero, len(df) // 10), replace=False)
         df.loc[idx, ["baseline_turnout", "baseline_dem", "baseline_gop"]] = 0
